@@ -3,6 +3,7 @@ import G3D.Proofs.Move2
 import G3D.Proofs.SortValid
 import G3D.Proofs.SortCycle
 import G3D.Proofs.Judge
+import G3D.Proofs.CtorQueries
 /-! # C09 — polygon / polyhedron construction is order-independent and canonical  (partial)
     Proved: what a successful construction guarantees (vertices ⊆ input, coplanar, centre = mean of the distinct input;
     polyhedron: every stored face oriented away from the centre, Euler's formula, centre = vertex mean, centre inside),
@@ -60,5 +61,35 @@ theorem neg_neg_polygon (P : Polygon) (hv : P.Valid) :
 
 /-- the judge the correspondence evaluates on implementation-built polygons decides exactly `Valid` -/
 theorem judge_decides_valid (P : Polygon) : P.validB = true ↔ P.Valid := Polygon.validB_iff P
+
+
+/-! ### ConvexPolyhedron: face order and input orientation do not matter -/
+/-- given the faces of a Valid body `B0` in ANY order, each with ANY start vertex and EITHER orientation (`Reoriented`),
+    the constructor succeeds exactly when Euler's formula holds for B0, and then returns a Valid body with every face outward
+    (a rotation of the corresponding face of B0), the same vertices, the same undirected edges, V − E + F = 2, and centre =
+    vertex mean, strictly inside -/
+theorem polyhedron_orientation_independent (B0 : Polyhedron) (hV : B0.Valid) (F input : List Polygon)
+    (hperm : List.Perm F B0.faces) (hrel : List.Forall₂ Reoriented F input)
+    (hEuler : ((collectVerts B0.faces).length : Int) - (edgesOf B0.faces []).length + B0.faces.length = 2) :
+    ∃ B, Polyhedron.mk? input = .ok B ∧ B.Valid ∧ B.center = meanV B.verts ∧ List.Forall₂ OutwardCopy F B.faces ∧
+      (∀ f ∈ B.faces, f.side B.center < 0) ∧ List.Perm B.verts (collectVerts B0.faces) ∧
+      ((B.verts.length : Int) - B.edges.length + B.faces.length = 2) := by
+  obtain ⟨B, h1, h2, _, h4, h5, _, h7, h8, _, _, h11, _⟩ := Polyhedron.mk?_reoriented B0 hV F input hperm hrel hEuler
+  exact ⟨B, h1, h2, h4, h5, h7, h8, h11⟩
+
+/-- … and the queries do not see the difference: same membership test as B0, which is the hull of the vertices -/
+theorem polyhedron_queries_independent (B0 : Polyhedron) (hV : B0.Valid) (F input : List Polygon)
+    (hperm : List.Perm F B0.faces) (hrel : List.Forall₂ Reoriented F input) (B : Polyhedron) (h : Polyhedron.mk? input = .ok B) :
+    B.Valid ∧ (∀ x, B.contains x = B0.contains x) ∧ (∀ x, B.contains x = true ↔ InHull B.verts x) := by
+  obtain ⟨h1, _, _, _, h5, h6, _⟩ := Polyhedron.mk?_reoriented_queries B0 hV F input hperm hrel B h
+  exact ⟨h1, h5, h6⟩
+
+/-- face ORDER: a permuted face list is accepted iff the original is, with the same centre, vertices, membership and volume -/
+theorem polyhedron_face_order_independent (input1 input2 : List Polygon) (hp : List.Perm input1 input2) (B1 : Polyhedron)
+    (h1 : Polyhedron.mk? input1 = .ok B1) :
+    ∃ B2, Polyhedron.mk? input2 = .ok B2 ∧ B2.center = B1.center ∧ List.Perm B1.verts B2.verts ∧
+      B1.edges.length = B2.edges.length ∧ (∀ x, B1.contains x = B2.contains x) ∧ B1.volume = B2.volume := by
+  obtain ⟨B2, a, b, _, _, e, f, _, _, i, j⟩ := Polyhedron.mk?_perm input1 input2 hp B1 h1
+  exact ⟨B2, a, b, e, f, i, j⟩
 
 end G3D.Props.C09
